@@ -56,8 +56,21 @@ class FaultyFile:
 
     def write(self, data):
         ST['wcount'] += 1
+        ST.setdefault('wlog', []).append(self._idx)
         if ST['wfault_at'] is not None and ST['wcount'] == ST['wfault_at']:
             raise OSError(5, 'Input/output error (injected fault)')
+        if getattr(self, '_full', False):
+            raise OSError(27, 'File too large (injected file size limit)')
+        if ST.get('sfault_at') is not None and ST['wcount'] == ST['sfault_at']:
+            # the file reaches a size limit in the middle of this write: half of the data is accepted.  A raw file
+            # (buffering=0) reports the short count and it is the caller's business; a buffered file retries the rest
+            # and gets the error
+            object.__setattr__(self, '_full', True)
+            n = len(data) // 2
+            self._f.write(data[:n])
+            if isinstance(self._f, io.RawIOBase):
+                return n
+            raise OSError(27, 'File too large (injected file size limit)')
         return self._f.write(data)
 
     def _lose(self):
@@ -111,12 +124,12 @@ def _open(file, mode='r', *a, **k):
     return f
 
 
-def observe(fn, fault_at=None, wfault_at=None, cfault_at=None):
+def observe(fn, fault_at=None, wfault_at=None, cfault_at=None, sfault_at=None):
     if not ST['installed']:
         sys.addaudithook(_hook)
         ST['installed'] = True
     ST.update(on=True, events=[], fault_at=fault_at, count=0, wfault_at=wfault_at, wcount=0, cfault_at=cfault_at, ocount=0,
-              swallowed=None)
+              swallowed=None, sfault_at=sfault_at, wlog=[])
     builtins.open = _open
     buf = io.StringIO()
     try:
@@ -342,6 +355,7 @@ def run_case(seed):
                 if os.path.exists(a) and not a.endswith('out') and not a.endswith('out2'):
                     shutil.rmtree(a, ignore_errors=True) if os.path.isdir(a) else os.remove(a)
             res, events, W, NW = observe(run)
+            wlog = list(ST.get('wlog', []))
             clean_out = {a: tree_digest(a) for a in allowed}
             out['evals'] += 1
             count(f"tool={name.split(' (')[0]}")
@@ -380,19 +394,23 @@ def run_case(seed):
                 ks = sorted(set(rng.sample(ks, min(len(ks), 5)) + ks[:1] + ks[-1:]))
                 ws = sorted(set(rng.sample(ws, min(len(ws), 4)) + ws[:1] + ws[-1:])) if ws else []
                 cs = sorted(set(rng.sample(cs, min(len(cs), 4)) + cs[:1] + cs[-1:])) if cs else []
-            for kind, positions in (('event', ks), ('write', ws), ('close', cs)):
+            # short writes (a file size limit reached in the middle of a write): at the LAST write of a file, where no
+            # later write to it can report the condition
+            lasts = sorted({len(wlog) - 1 - wlog[::-1].index(f) + 1 for f in set(wlog)}) if wlog else []
+            ss = lasts if thorough else sorted(set(rng.sample(lasts, min(len(lasts), 4)) + lasts[-1:]))
+            for kind, positions in (('event', ks), ('write', ws), ('close', cs), ('short', ss)):
                 for k in positions:
                     for a in allowed:
                         if os.path.exists(a):
                             shutil.rmtree(a, ignore_errors=True) if os.path.isdir(a) else os.remove(a)
                     res2, ev2, _, _ = observe(run, fault_at=k if kind == 'event' else None, wfault_at=k if kind == 'write' else None,
-                                              cfault_at=k if kind == 'close' else None)
+                                              cfault_at=k if kind == 'close' else None, sfault_at=k if kind == 'short' else None)
                     out['evals'] += 1
                     count(f"fault={kind}")
                     bad = check_common(f" with a fault at {kind} {k}", res2, ev2)
                     if not bad and res2[0] == 'ok' and {a: tree_digest(a) for a in allowed} != clean_out:
                         # (a normal return with the complete, correct output means the library retried and recovered)
-                        bad = (f"{name}: an I/O error at {kind} {k} of {dict(event=W, write=NW, close=NO)[kind]} was swallowed: the tool returned "
+                        bad = (f"{name}: an I/O error at {kind} {k} of {dict(event=W, write=NW, close=NO, short=NW)[kind]} was swallowed: the tool returned "
                                f"normally with an incomplete or different output"
                                + (f" (the file {ST['swallowed']} was never closed explicitly)" if ST.get('swallowed') else ''))
                     if bad:
